@@ -183,3 +183,13 @@ package op
 //@ func Instance.Validate returns (err)
 //@   pure
 //@   ensures (err == nil) == (len(i.Values) > 0 && (i.Key != nil ==> supported(*i.Key)))
+
+// ---- dynamics (C07) ----
+//@ define validDyn(d) d == Pianissimo || d == Piano || d == MezzoPiano || d == MezzoForte || d == Forte || d == Fortissimo
+// pp < p < mp < mf < f < ff
+//@ define loudness(d) ite(d == Pianissimo, 1, ite(d == Piano, 2, ite(d == MezzoPiano, 3, ite(d == MezzoForte, 4, ite(d == Forte, 5, 6)))))
+
+//@ func lemmaC07Louder returns (va, vb)
+//@   requires validDyn(a) && validDyn(b)
+//@   ensures 1 <= va && va <= 127 && 1 <= vb && vb <= 127
+//@   ensures loudness(a) < loudness(b) ==> va < vb
